@@ -25,7 +25,9 @@ MIN_EVAL = {'quick': 2000, 'thorough': 40000}
 REQUIRED_COUNTERS = ['string_targets', 'variants', 'long_lists']
 SRCS = ['a', 'b', 'x1', '_', 'n-0', '\u03b5', 'b.c', 'None']
 ROLES = [':instance', ':ARG0', ':ARG1-of', ':mod', ':op10', 'polarity', ':x-y', ':\u00e9t\u00e9', ':a.b',
-         ':^sup', '^r', ':a^b']
+         ':^sup', '^r', ':a^b',
+         # roles spelled like the sources and targets of the same list
+         ':a', ':b', 'x1', ':None', ':foo-01']
 TGTS = ['b', 'x1', '7', '-1.5', '-', '+', 'foo-01', '"x"', '"a b"', '"(p)"', '"a, b"', '"^"', '"q ^ r"',
         '"\\"q\\""', '"a,b)"', '"#"', '""', '"\\\\"', '"\u00e9\u3000"', '0', '1e3', 'c.d', "it's", '"~1"',
         '1,000', 'c,d', '1,000,000', '"{{cite web}}"', '"{"', '"a}b{c"', 'x{0}', '{}', '"f(x)^2 + g(y) ^ 3"', '"a) ^ b"', '")^"', '"x) ^\\" y"', '"(a , b) ^ (c ,d)"',
